@@ -240,7 +240,10 @@ copy_vs(int32 infile_id, int32 outfile_id, int32 tag, /* tag of input VS */
             goto out;
         }
         for (int j = 0; j < n_attrs; j++) {
-            copy_vdata_attribute(vdata_id, vdata_out, i, j);
+            if (copy_vdata_attribute(vdata_id, vdata_out, i, j) < 0) {
+                ret = -1;
+                goto out;
+            }
         }
     }
 
